@@ -61,10 +61,10 @@ func verifC08Stats(n int) {
 	p := nondetIntIn(-100, 100)
 	verifAssume(p != 0)
 	var dis gostatsd.TimerSubtypes
-	// the mask: three independent symbolic switches (count; mean/sum/sum_squares; boundaries)
-	d1, d2, d3 := nondetBool(), nondetBool(), nondetBool()
+	// the mask: four independent symbolic switches (count; mean/sum/sum_squares; upper boundary; lower boundary)
+	d1, d2, d3, d4 := nondetBool(), nondetBool(), nondetBool(), nondetBool()
 	dis.CountPct, dis.MeanPct, dis.SumPct, dis.SumSquaresPct = d1, d2, !d2, d2
-	dis.UpperPct, dis.LowerPct = d3, d3
+	dis.UpperPct, dis.LowerPct = d3, d4 // independent: one boundary may be disabled while the other is not
 	a := NewMetricAggregator([]float64{float64(p)}, 0, 0, 0, 0, dis, 0)
 	a.now = func() time.Time { return time.Unix(100, 0) }
 	vals := make([]float64, n)
@@ -392,7 +392,7 @@ func verifC08Multi(n int) {
 	}
 	var dis gostatsd.TimerSubtypes
 	dis.CountPct, dis.SumSquaresPct, dis.LowerPct = d, d, d
-	dis.MeanPct = !d
+	dis.MeanPct, dis.UpperPct = !d, !d
 	a := NewMetricAggregator([]float64{pair[0], pair[1]}, 0, 0, 0, 0, dis, 0)
 	a.now = func() time.Time { return time.Unix(100, 0) }
 	mm := gostatsd.NewMetricMap(false)
